@@ -1,14 +1,14 @@
-\* case generator (model checking): every tree shape with exactly 6 nodes over Memory(fanout 2), Compute(fanout 3), Fork, Hierarchical
+\* case generator (model checking): every tree shape with exactly 5 nodes over Memory(fanout 2), Compute(fanout 3), Fork, Hierarchical
 CONSTANTS
-  MaxN = 6
+  MaxN = 5
   MaxDepth = 4
   LeafKinds = {"Memory", "Compute"}
   BranchKinds = {"Fork", "Hierarchical"}
   Fanouts = {2}
   ComputeFanouts = {3}
-  MinEmit = 6
+  MinEmit = 5
   AppendComputes = TRUE
   CountOwn = FALSE
 INIT Init
 NEXT GenNext
-INVARIANT Emit26
+INVARIANT Emit25
